@@ -72,6 +72,8 @@ type Scenario struct {
 	// Twin runs after each execution, outside the bubble: it may re-execute the same choices on a
 	// variant and append violations to h.Viol (metamorphic oracles).
 	Twin func(t *testing.T, s *Scenario, h *Hist, choices []int)
+	// BoundCap, when > 0, caps the deviation bound for this scenario below the check's bound.
+	BoundCap int
 	// Prune enables revisited-state pruning for this scenario even when its check does not prune
 	// globally (scenarios without a twin / baseline oracle).
 	Prune bool
@@ -412,8 +414,13 @@ func (h *Hist) scan() {
 		}
 	}
 	sort.Strings(lookups)
-	for _, l := range lookups {
-		tr += " " + l
+	if res.Panic != nil && len(lookups) > 0 {
+		// the scan died inside the map-ordered lookup loop: which lookups ran first is not deterministic
+		tr += " ec2.describeinstances(some failed)"
+	} else {
+		for _, l := range lookups {
+			tr += " " + l
+		}
 	}
 	if res.Err != nil {
 		tr += " => err: " + res.Err.Error()
